@@ -244,6 +244,8 @@ struct Rw<'a> {
     ring: bool,
     machine: Vec<String>,
     qnames: Vec<String>,
+    index2: bool,
+    for_range: bool,
     subst: Vec<(String, String)>,
     sections: &'a BTreeMap<String, String>,
     rules: RefCell<BTreeMap<String, usize>>,
@@ -531,6 +533,18 @@ impl<'a, 'b, 'ast> Visit<'ast> for Collector<'a, 'b> {
                     visit::visit_stmt(self, s)
                 }
             }
+            Stmt::Local(l) if matches!(&l.pat, syn::Pat::Slice(_)) && l.init.is_some() => {
+                // R12: `let [a, b, c] = e;` -> `let __arr = e; let (a, b, c) = (__arr[0], __arr[1], __arr[2]);`
+                if let (syn::Pat::Slice(ps), Some(init)) = (&l.pat, &l.init) {
+                    let names: Vec<String> = ps.elems.iter().map(|p| self.rw.src[p.span().byte_range()].to_string()).collect();
+                    let rhs = self.rw.render_expr(&init.expr);
+                    let idx: Vec<String> = (0..names.len()).map(|k| format!("__arr[{k}]")).collect();
+                    let text = format!("let __arr = {}; let ({}) = ({});", rhs, names.join(", "), idx.join(", "));
+                    self.rw.count("R12");
+                    let r = s.span().byte_range();
+                    self.edits.push((r.start, r.end, text));
+                }
+            }
             Stmt::Local(l) => {
                 // anchors "after-let NAME" / "before-let NAME": proof text next to the let that binds NAME
                 struct Names(Vec<String>);
@@ -634,9 +648,40 @@ impl<'a, 'b, 'ast> Visit<'ast> for Collector<'a, 'b> {
                 }
                 visit::visit_expr(self, e);
             }
+            Expr::Index(ix) if rw.index2 && matches!(&*ix.index, Expr::Tuple(t) if t.elems.len() == 2) => {
+                // R13: `m[(i, j)]` (Index<(usize, usize)>) -> `m.at(i, j)`
+                if let Expr::Tuple(t) = &*ix.index {
+                    let text = format!("{}.at({}, {})", rw.render_expr(&ix.expr), rw.render_expr(&t.elems[0]), rw.render_expr(&t.elems[1]));
+                    rw.count("R13");
+                    let sp = e.span().byte_range();
+                    self.edits.push((sp.start, sp.end, text));
+                }
+            }
             Expr::While(w) => {
                 self.loop_anchor(&w.body);
                 visit::visit_expr(self, e);
+            }
+            Expr::ForLoop(w) if rw.for_range && matches!(&*w.expr, Expr::Range(r) if r.start.is_some() && r.end.is_some() && matches!(r.limits, syn::RangeLimits::HalfOpen(_))) && matches!(&*w.pat, syn::Pat::Ident(_)) => {
+                // R14 (option for_range=1): `for x in lo..hi { B }` over a half-open integer range ->
+                //   { let mut __itN = lo; let __hiN = hi; while __itN < __hiN  <invariant> decreases __hiN - __itN { let x = __itN; __itN += 1; B } }
+                // (this is rustc's desugaring specialised to Range<integer>; `continue` then needs no support in for-loops)
+                if let (Expr::Range(r), syn::Pat::Ident(pi)) = (&*w.expr, &*w.pat) {
+                    let idx = rw.loop_idx.get();
+                    rw.loop_idx.set(idx + 1);
+                    let lo = rw.render_expr(r.start.as_ref().unwrap());
+                    let hi = rw.render_expr(r.end.as_ref().unwrap());
+                    let inv = rw.section(&format!("loop {idx}")).map(|t| mark(t)).unwrap_or_default();
+                    // body statements rendered through a fresh collector so that nested anchors still apply
+                    let mut c = Collector { rw, edits: vec![] };
+                    for st in &w.body.stmts { c.visit_stmt(st); }
+                    let br = w.body.span().byte_range();
+                    let inner = apply_edits(rw.src, (br.start + 1)..(br.end - 1), c.edits);
+                    let begin = rw.section(&format!("loop {idx} begin")).map(|t| format!("proof {{ //@p\n{}\n}} //@p\n", mark(t))).unwrap_or_default();
+                    let text = format!("{{ let mut __it{idx} = {lo}; let __hi{idx} = {hi};\nwhile __it{idx} < __hi{idx}\n{inv}\ndecreases __hi{idx} - __it{idx}, //@p\n{{ let {} = __it{idx}; __it{idx} += 1;\n{begin}{inner} }} }}", pi.ident);
+                    rw.count("R14");
+                    let sp = e.span().byte_range();
+                    self.edits.push((sp.start, sp.end, text));
+                }
             }
             Expr::ForLoop(w) => {
                 self.loop_anchor(&w.body);
@@ -725,6 +770,8 @@ fn extract_body(repo: &Path, source: &str, d: &Directive, variant: &str) -> Resu
         ring: d.opts.get("ring").map(|v| v == "1").unwrap_or(false),
         machine: d.opts.get("machine").map(|s| s.split(',').map(|x| x.to_string()).collect()).unwrap_or_default(),
         qnames: d.opts.get("q").map(|s| s.split(',').map(|x| x.to_string()).collect()).unwrap_or_default(),
+        index2: d.opts.get("index2").map(|v| v == "1").unwrap_or(false),
+        for_range: d.opts.get("for_range").map(|v| v == "1").unwrap_or(false),
         subst,
         sections: &d.sections,
         rules: RefCell::new(rules),
@@ -797,15 +844,32 @@ fn extract_body(repo: &Path, source: &str, d: &Directive, variant: &str) -> Resu
 // ---------------------------------------------------------------- type / const items (R7)
 
 fn subst_type(ty: &syn::Type, subst: &[(String, String)]) -> String {
-    let t = ty.to_token_stream().to_string();
-    let mut out = String::new();
-    for tok in t.split(' ') {
-        let rep = subst.iter().find(|(k, _)| k == tok).map(|(_, v)| v.as_str()).unwrap_or(tok);
-        out.push_str(rep);
-        out.push(' ');
+    // token text without spaces; generic applications can be substituted as a whole ("Mat<R>:Mat")
+    let mut t: String = ty.to_token_stream().to_string().split_whitespace().collect();
+    let mut keys: Vec<&(String, String)> = subst.iter().collect();
+    keys.sort_by_key(|(k, _)| std::cmp::Reverse(k.len()));
+    for (k, v) in keys {
+        // replace only whole identifiers / whole generic applications
+        let mut out = String::new();
+        let mut i = 0;
+        let b = t.as_bytes();
+        while i < t.len() {
+            if t[i..].starts_with(k.as_str()) {
+                let before_ok = i == 0 || !(b[i - 1].is_ascii_alphanumeric() || b[i - 1] == b'_');
+                let j = i + k.len();
+                let after_ok = j >= t.len() || !(b[j].is_ascii_alphanumeric() || b[j] == b'_');
+                if before_ok && after_ok {
+                    out.push_str(v);
+                    i = j;
+                    continue;
+                }
+            }
+            out.push(b[i] as char);
+            i += 1;
+        }
+        t = out;
     }
-    // `Ratio < Z >` style generic applications of a substituted parameter are left as is
-    out.trim().to_string()
+    t.replace(',', ", ")
 }
 
 fn extract_item(repo: &Path, source: &str, sel: &str, opts: &BTreeMap<String, String>) -> Result<(String, usize, usize), Fail> {
